@@ -44,6 +44,10 @@ def target_tests(draw, max_bad):
     """tests of the layer that runs in the child"""
     nbad = draw(st.one_of(st.integers(0, 3), st.integers(0, max_bad)))
     npass = draw(st.integers(0, 3))
+    # a report of more than a megabyte: a dozen failing tests whose ids carry their (large) parameters
+    bulk = max_bad >= 12 and draw(st.integers(0, 49)) == 0
+    if bulk:
+        nbad = 12
     tests = []
     for i in range(nbad):
         k = draw(st.sampled_from(['fail', 'error', 'fail', 'error', 'error_both', 'uxsuccess', 'fail_teardown',
@@ -58,6 +62,8 @@ def target_tests(draw, max_bad):
         nm = draw(test_names()) if (i < 12 and k != 'subtests') else None
         if nm is not None and not re.search('.', nm):
             nm = 'x' + nm       # (the default --test filter '.' only selects names with a non-newline character)
+        if bulk and k != 'subtests':
+            nm = 'B%02d ' % i + 'param=' + 'L' * 140000
         if nm is not None:
             t['str'] = nm
         tests.append(t)
